@@ -44,16 +44,18 @@ def _natural_sort_key(var: Variable) -> tuple:
         A[0,0], A[0,1], A[0,2], A[1,0], A[1,1], ...
 
     Returns:
-        Tuple for sorting: (base_name, index1, index2, ...)
+        Pair for sorting: ((base_name, index1, index2, ...), name). The name
+        breaks ties between names that differ only in leading zeros
+        ("x1" / "x01"), so the order never depends on set iteration order.
     """
-    if hasattr(var, "_sort_key"):
-        return var._sort_key
-
     name = var.name
+    if hasattr(var, "_sort_key"):
+        return (var._sort_key, name)
+
     # Split into text and number parts
     parts = _NUMBER_SPLIT_RE.split(name)
     # Convert number parts to integers for proper numeric sorting
-    return tuple(int(p) if p.isdigit() else p for p in parts)
+    return (tuple(int(p) if p.isdigit() else p for p in parts), name)
 
 
 def _try_get_single_vector_source(expr: "Expression") -> "VectorVariable | None":
